@@ -125,6 +125,8 @@ func Catalogue() []Prog {
 	add("file-vhtml", F, `<div v-html="html"></div><template v-html="html"></template><p v-text="title"></p><template :tv="title"><i>{{ tv }}</i></template><b :title="user.name">{{ n }}</b>`, nil, nil, false)
 	add("file-vhtml-attrs", F, `<div id="a" class="b" v-html="html"></div><p a="1" b="2" c="3" d="4" v-text="title"></p><section a="1" b="2" c="3" d="4" e="5" v-html="html"></section><article a="1" b="2" c="3" d="4" e="5" f="6" v-text="user.name"></article><aside a="1" b="2" c="3" d="4" e="5" f="6" g="7" h="8" v-html="title"></aside><h4 a="1" b="2" c="3" d="4" e="5" f="6" g="7" h="8" i="9" j="10" v-text="title"></h4>`, nil, nil, false)
 	add("include-attrs", F, `<template include="@D/c.vuego" a="1" :b="title"></template><template include="@D/c.vuego" a="1" b="2" c="3" d="4" :e="user.name"></template>`, map[string]string{"c.vuego": `<i>{{ a }}{{ b }}{{ e }}</i>`}, nil, false)
+	add("less-style", F, `<style type="text/css+less">@c: red; @pad: 4px; .card { color: @c; .title { padding: @pad * 2; &:hover { color: darken(@c, 10%); } } }</style><div class="card"><p class="title">{{ title }}</p></div>`, nil, nil, false)
+	add("less-in-component", F, `<template include="@D/c.vuego"></template><template include="@D/c.vuego"></template>`, map[string]string{"c.vuego": `<style v-once type="text/css+less">@w: 10px; .c { width: @w + 5; }</style><i class="c">{{ n }}</i>`}, nil, false)
 	add("include", F, `<main><template include="@D/c.vuego" :lk_prop="n" label="L {{ title }}"></template><template include="@D/c.vuego" :lk_prop="f" label="second"></template></main>`,
 		map[string]string{"c.vuego": "---\nlk_fm: fm-value\n---\n<section><h2>{{ label }}</h2><p>{{ lk_prop }} {{ lk_fm }} {{ title }}</p></section>"}, nil, false)
 	add("include-nested", F, `<template include="@D/outer.vuego" :x="n"></template>`,
@@ -231,7 +233,9 @@ type catEngine struct {
 }
 
 func newCatEngine(fsys fs.FS) *catEngine {
-	return &catEngine{fsys: fsys, base: vuego.NewFS(fsys, vuego.WithFuncs(catFuncs())), vue: vuego.NewVue(fsys).Funcs(catFuncs())}
+	vue := vuego.NewVue(fsys).Funcs(catFuncs())
+	vue.RegisterNodeProcessor(vuego.NewLessProcessor(fsys))
+	return &catEngine{fsys: fsys, base: vuego.NewFS(fsys, vuego.WithFuncs(catFuncs()), vuego.WithLessProcessor()), vue: vue}
 }
 
 var catEntryPoints = []string{"load-render", "renderfile", "vue-render", "vue-fragment"}
